@@ -110,3 +110,9 @@ Example C13_example :
   map fst (df_slice_one 24 (true, false) (BTod 18) (BTod 6) rows) = [0; 18; 24] /\
   parse_oc "[)" = Some (true, false) /\ parse_oc "x]" = None.
 Proof. split; [repeat constructor; simpl; lia | repeat split; vm_compute; reflexivity]. Qed.
+
+(* decreasing bound lists: series and bounds are both reversed first, so bound ub[i] still goes with series i *)
+Theorem C13_decreasing_bounds day oc n ss ubs : nondec ubs = false -> nondec (rev ubs) = true ->
+  stitch day oc n ss (UbList ubs) = stitch day oc n (rev ss) (UbList (rev ubs)).
+Proof. intros H1 H2. unfold stitch. rewrite H1, H2. reflexivity. Qed.
+Print Assumptions C13_decreasing_bounds.
